@@ -1,1 +1,363 @@
-/-! Property theorems for C08 (stub: none yet). -/
+/-
+C08 - Each remote call completes exactly once, with the reply that belongs to it.
+
+Property theorems about the code model `Txdbus.Calls` (lean/TxdbusModel/Client/Calls.lean,
+mirror of callRemote / callRemoteMessage / _onMethodTimeout / methodReturnReceived /
+errorReceived / _cbCvtReply / connectionLost in txdbus/client.py) against the specification
+`Txdbus.Calls.Spec` (lean/TxdbusModel/Client/CallsSpec.lean, written from the property text).
+
+Every theorem quantifies over ALL operation sequences `ops` (any number of calls, replies, error
+replies, expiries, duplicates, unsolicited replies, losses, in any order) started on a ready
+connection, under the one hypothesis of the property: the calls awaiting a reply carry pairwise
+distinct serials (`DistinctSerials`), which `serials_distinct` proves for the process-wide
+counter.  `asStr` (Python's `isinstance(v, str)`) and the value type are arbitrary.
+-/
+import TxdbusModel.Proofs.Client.CallsTrace
+import TxdbusModel.Proofs.Client.CallsCvt
+import TxdbusModel.Proofs.Client.CallsFirst
+
+namespace Txdbus.C08
+
+open Txdbus.Calls Txdbus.Calls.Spec
+open Txdbus.Gen
+
+variable {V R : Type}
+
+/-- The final state of a ready connection after `ops`. -/
+abbrev final (asStr : V → Option (List Char)) (ops : List (Op V R)) : St V R :=
+  run asStr (St.init V R true) ops
+
+/-! ## 0. Refinement: the model delivers to every call exactly what the specification says -/
+
+/-- For every `callRemote` in the sequence, the complete history of firings of the Deferred it
+returned is the one the property prescribes: nothing while no event concerns the call, then the
+delivery of the FIRST event that does (matching return, matching error, own expiry, loss), and
+nothing ever after; `None` at once for `expectReply=False`; the failure at once when the message
+could not be built. -/
+theorem refinement (asStr : V → Option (List Char)) (ops : List (Op V R)) (hd : DistinctSerials ops)
+    (i : Nat) (hc : ∃ op, ops[i]? = some op ∧ isCall op = true) :
+    firingsOf (callId ops i) (final asStr ops).log = expectedFirings asStr ops i := by
+  obtain ⟨op, hi, hcall⟩ := hc
+  cases op with
+  | call σ er tmo rs =>
+    cases er with
+    | true =>
+      simp only [expectedFirings, hi]
+      exact (trace_call_open asStr hd hi).1
+    | false =>
+      simp only [expectedFirings, hi]
+      exact (trace_call_immediate asStr hd hi (.callback none) rs
+        (fun s => by simp [Txdbus.Calls.step, callOp])).1
+  | callBad rs =>
+    simp only [expectedFirings, hi]
+    exact (trace_call_immediate asStr hd hi .constructFailed rs
+      (fun s => by simp [Txdbus.Calls.step, callBadOp])).1
+  | ret _ _ => cases hcall
+  | err _ _ _ => cases hcall
+  | expire _ => cases hcall
+  | lost _ => cases hcall
+
+/-! ## 1. exactly_once -/
+
+/-- In every reachable state, every Deferred handed out so far is either still in the table and has
+not fired, or is in neither the table nor the timer list and has fired exactly once. -/
+theorem exactly_once (asStr : V → Option (List Char)) (ops : List (Op V R)) (hd : DistinctSerials ops) :
+    ∀ k < (final asStr ops).nextId,
+      ((∃ e ∈ (final asStr ops).pending, e.2.did = k) ∧ firingsOf k (final asStr ops).log = []) ∨
+      ((∀ e ∈ (final asStr ops).pending, e.2.did ≠ k) ∧ (∀ x ∈ (final asStr ops).timers, x.1 ≠ k) ∧
+        (firingsOf k (final asStr ops).log).length = 1) := by
+  intro k hk
+  have hI : Inv (final asStr ops) := inv_reachable asStr hd true
+  have ho := once_run asStr ops (Inv.init true) rfl (freshRun_init hd true) (once_init true) k hk
+  by_cases hp : ∃ e ∈ (final asStr ops).pending, e.2.did = k
+  · obtain ⟨e, he, hek⟩ := hp
+    exact Or.inl ⟨⟨e, he, hek⟩, firingsOf_eq_nil (fun x hx => by rw [← hek]; exact hI.unfired e he x hx)⟩
+  · have hp' : ∀ e ∈ (final asStr ops).pending, e.2.did ≠ k := fun e he hek => hp ⟨e, he, hek⟩
+    refine Or.inr ⟨hp', ?_, ?_⟩
+    · intro x hx hxk
+      exact hp' _ (hI.timer_pending x hx) hxk
+    · rcases ho with h | h
+      · exact absurd h hp
+      · exact h
+
+/-- No reachable state holds a double completion: no Deferred, handed out or not, has two firings. -/
+theorem no_double_completion (asStr : V → Option (List Char)) (ops : List (Op V R))
+    (hd : DistinctSerials ops) (k : Nat) : (firingsOf k (final asStr ops).log).length ≤ 1 := by
+  by_cases hk : k < (final asStr ops).nextId
+  · rcases exactly_once asStr ops hd k hk with ⟨_, h⟩ | ⟨_, _, h⟩
+    · rw [h]; exact Nat.zero_le _
+    · omega
+  · have hI : Inv (final asStr ops) := inv_reachable asStr hd true
+    rw [firingsOf_eq_nil (fun x hx => by have := hI.log_lt x hx; omega)]
+    exact Nat.zero_le _
+
+/-! ## 2. attribution -/
+
+/-- Whatever was delivered to a call awaiting a reply came from an event addressed to THAT call, later
+in the sequence: a value only from a method return whose reply serial is the call's serial, a
+RemoteError only from an error reply with the call's serial (with that reply's name, and the message and
+values the specification derives from its arguments), TimeOut only from the call's own deadline, a loss
+reason only from a connection loss. -/
+theorem attribution (asStr : V → Option (List Char)) (ops : List (Op V R)) (hd : DistinctSerials ops)
+    {i σ : Nat} {tmo : Option Nat} {rs : RetSig} (hi : ops[i]? = some (.call σ true tmo rs))
+    (f : Firing V R) (hf : f ∈ firingsOf (callId ops i) (final asStr ops).log) :
+    ∃ j, i < j ∧
+      ((∃ msg, ops[j]? = some (.ret σ msg) ∧ f = .callback (some msg)) ∨
+       (∃ name body, ops[j]? = some (.err σ name body) ∧
+          f = .remoteError name (errorFields asStr body).1 (errorFields asStr body).2) ∨
+       (ops[j]? = some (.expire (callId ops i)) ∧ truthyTimeout tmo = true ∧
+          f = .timeOut C08Client.timeoutText.toList) ∨
+       (∃ r, ops[j]? = some (.lost r) ∧ f = .lost r)) := by
+  rw [(trace_call_open asStr hd hi).1] at hf
+  have hfc : firstCompletion asStr σ (callId ops i) (truthyTimeout tmo) (ops.drop (i + 1)) = some f := by
+    cases h : firstCompletion asStr σ (callId ops i) (truthyTimeout tmo) (ops.drop (i + 1)) with
+    | none => rw [h] at hf; simp at hf
+    | some g => rw [h] at hf; simp at hf; rw [hf]
+  obtain ⟨j, op, hget, hcomp, _⟩ := firstCompletion_some asStr σ _ _ _ hfc
+  rw [List.getElem?_drop] at hget
+  refine ⟨i + 1 + j, by omega, ?_⟩
+  cases op with
+  | call _ _ _ _ => simp [completes] at hcomp
+  | callBad _ => simp [completes] at hcomp
+  | ret rsn msg =>
+    simp only [completes] at hcomp
+    split at hcomp
+    · next h => subst h; exact Or.inl ⟨msg, hget, by simpa using hcomp.symm⟩
+    · cases hcomp
+  | err rsn name body =>
+    simp only [completes] at hcomp
+    split at hcomp
+    · next h => subst h; exact Or.inr (Or.inl ⟨name, body, hget, by simpa using hcomp.symm⟩)
+    · cases hcomp
+  | expire t =>
+    simp only [completes] at hcomp
+    split at hcomp
+    · next h =>
+      obtain ⟨h1, h2⟩ := h
+      subst h2
+      exact Or.inr (Or.inr (Or.inl ⟨hget, h1, by simpa using hcomp.symm⟩))
+    · cases hcomp
+  | lost r =>
+    simp only [completes] at hcomp
+    exact Or.inr (Or.inr (Or.inr ⟨r, hget, by simpa using hcomp.symm⟩))
+
+/-- A reply (return or error) whose reply serial is not in the table - unsolicited, a duplicate of an
+answered call, a reply to an expired call or to a call that expects none - changes nothing at all, in any
+state. -/
+theorem unsolicited_completes_nothing (asStr : V → Option (List Char)) (s : St V R) (rsn : Nat)
+    (h : ∀ e ∈ s.pending, e.1 ≠ rsn) (msg : Reply V) (name : List Char) (body : Option (List V)) :
+    step asStr s (.ret rsn msg) = s ∧ step asStr s (.err rsn name body) = s := by
+  have hg := dGet_none_iff.mpr h
+  simp [Txdbus.Calls.step, retOp, errOp, hg]
+
+/-! ## 3. first_wins -/
+
+/-- If the event at position `j` concerns the call issued at position `i` and no event strictly between
+them does, the call's Deferred has fired exactly once, with the delivery of event `j` - whatever comes
+later (other replies with the same serial, the deadline, a loss). -/
+theorem first_wins (asStr : V → Option (List Char)) (ops : List (Op V R)) (hd : DistinctSerials ops)
+    {i σ : Nat} {tmo : Option Nat} {rs : RetSig} (hi : ops[i]? = some (.call σ true tmo rs))
+    {j : Nat} (hij : i < j) {opj : Op V R} (hj : ops[j]? = some opj) {f : Firing V R}
+    (hcomp : completes asStr σ (callId ops i) (truthyTimeout tmo) opj = some f)
+    (hfirst : ∀ (j' : Nat) (op' : Op V R), i < j' → j' < j → ops[j']? = some op' →
+      completes asStr σ (callId ops i) (truthyTimeout tmo) op' = none) :
+    firingsOf (callId ops i) (final asStr ops).log = [f] := by
+  rw [(trace_call_open asStr hd hi).1]
+  have : firstCompletion asStr σ (callId ops i) (truthyTimeout tmo) (ops.drop (i + 1)) = some f := by
+    refine firstCompletion_of_first asStr σ _ _ _ (j - (i + 1)) opj ?_ hcomp ?_
+    · rw [List.getElem?_drop]
+      have : i + 1 + (j - (i + 1)) = j := by omega
+      rw [this]; exact hj
+    · intro j' op' hlt hget
+      rw [List.getElem?_drop] at hget
+      exact hfirst (i + 1 + j') op' (by omega) (by omega) hget
+  rw [this]; rfl
+
+/-- While no event concerns the call it has not fired and is still in the table (with its timer, if any). -/
+theorem pending_until_completed (asStr : V → Option (List Char)) (ops : List (Op V R))
+    (hd : DistinctSerials ops) {i σ : Nat} {tmo : Option Nat} {rs : RetSig}
+    (hi : ops[i]? = some (.call σ true tmo rs))
+    (hnone : ∀ op ∈ ops.drop (i + 1), completes asStr σ (callId ops i) (truthyTimeout tmo) op = none) :
+    firingsOf (callId ops i) (final asStr ops).log = [] ∧
+      (σ, (⟨callId ops i, if truthyTimeout tmo then some (callId ops i) else none⟩ : Pending))
+        ∈ (final asStr ops).pending := by
+  have hfc := (firstCompletion_none asStr σ (callId ops i) (truthyTimeout tmo) _).mpr hnone
+  obtain ⟨h1, h2, _⟩ := trace_call_open asStr hd hi
+  exact ⟨by rw [h1, hfc]; rfl, h2 hfc⟩
+
+/-! ## 4. no_residue -/
+
+/-- After a call has completed, nothing of it remains: no table entry under its serial or for its
+Deferred, no timer for it; its deadline can no longer fire (the reactor has nothing to run) and a further
+reply with its serial changes nothing. -/
+theorem no_residue (asStr : V → Option (List Char)) (ops : List (Op V R)) (hd : DistinctSerials ops)
+    {i σ : Nat} {tmo : Option Nat} {rs : RetSig} (hi : ops[i]? = some (.call σ true tmo rs))
+    (hfired : firingsOf (callId ops i) (final asStr ops).log ≠ []) :
+    (∀ e ∈ (final asStr ops).pending, e.1 ≠ σ ∧ e.2.did ≠ callId ops i) ∧
+    (∀ x ∈ (final asStr ops).timers, x.1 ≠ callId ops i ∧ x.2 ≠ σ) ∧
+    step asStr (final asStr ops) (.expire (callId ops i)) = final asStr ops ∧
+    (∀ msg, step asStr (final asStr ops) (.ret σ msg) = final asStr ops) ∧
+    (∀ name body, step asStr (final asStr ops) (.err σ name body) = final asStr ops) := by
+  obtain ⟨h1, _, h3⟩ := trace_call_open asStr hd hi
+  have hne : firstCompletion asStr σ (callId ops i) (truthyTimeout tmo) (ops.drop (i + 1)) ≠ none := by
+    intro h
+    rw [h1, h] at hfired
+    exact hfired rfl
+  obtain ⟨hcl, hkey⟩ := h3 hne
+  have hI : Inv (final asStr ops) := inv_reachable asStr hd true
+  have htim : ∀ x ∈ (final asStr ops).timers, x.1 ≠ callId ops i ∧ x.2 ≠ σ := by
+    intro x hx
+    have hp := hI.timer_pending x hx
+    exact ⟨hcl.2 _ hp, hkey _ hp⟩
+  refine ⟨fun e he => ⟨hkey e he, hcl.2 e he⟩, htim, ?_, ?_, ?_⟩
+  · have : (final asStr ops).timers.find? (fun e => e.1 == callId ops i) = none := by
+      rw [List.find?_eq_none]
+      intro x hx
+      simpa using (htim x hx).1
+    simp [Txdbus.Calls.step, expireOp, this]
+  · intro msg
+    exact (unsolicited_completes_nothing asStr _ σ hkey msg [] none).1
+  · intro name body
+    exact (unsolicited_completes_nothing asStr _ σ hkey ⟨none, none⟩ name body).2
+
+/-- After `connectionLost` the table and the timer list are empty. -/
+theorem lost_leaves_nothing (asStr : V → Option (List Char)) (ops : List (Op V R)) (hd : DistinctSerials ops)
+    (r : R) :
+    (final asStr (ops ++ [.lost r])).pending = [] ∧ (final asStr (ops ++ [.lost r])).timers = [] := by
+  have hI : Inv (final asStr ops) := inv_reachable asStr hd true
+  have hr : (final asStr ops).ready = true := by simp only [final, run_ready]; rfl
+  simp only [final, run_append]
+  show (step asStr (final asStr ops) (.lost r)).pending = [] ∧ (step asStr (final asStr ops) (.lost r)).timers = []
+  simp [Txdbus.Calls.step, lostOp_char hI hr]
+
+/-- The code never raises (`KeyError` from `del`, `AlreadyCalled` from `cancel`) on any sequence. -/
+theorem no_faults (asStr : V → Option (List Char)) (ops : List (Op V R)) (hd : DistinctSerials ops) :
+    (final asStr ops).faults = [] :=
+  (inv_reachable asStr hd true).faults
+
+/-! ## 5. reply_convention -/
+
+/-- The value handed to the caller for a method return as it comes off the wire: RemoteError when a
+declared return signature differs from the reply's, otherwise `None` for no value, the value for one
+non-struct value, the list of values in every other case.  (`expectReply=False`: `None`.) -/
+theorem reply_convention (m : Reply V) (hw : WellFormed m) (rs : RetSig) :
+    ((∃ d, declared rs = some d ∧ d ≠ sigOf m) → ∃ t, cvtReply (some m) rs = .remoteError t) ∧
+    ((¬ ∃ d, declared rs = some d ∧ d ≠ sigOf m) →
+      cvtReply (some m) rs = convention (sigOf m) (valuesOf m)) ∧
+    cvtReply (none : Option (Reply V)) rs = .none := by
+  have hiff := sigCheck_isSome_iff rs m.signature
+  have hcv := cvtReply_wellFormed m hw rs
+  refine ⟨?_, ?_, rfl⟩
+  · intro hmis
+    have := hiff.mpr hmis
+    cases hs : sigCheck rs m.signature with
+    | none => rw [hs] at this; cases this
+    | some t => rw [hs] at hcv; exact ⟨t, hcv⟩
+  · intro hok
+    cases hs : sigCheck rs m.signature with
+    | none => rw [hs] at hcv; exact hcv
+    | some t => exact absurd (hiff.mp (by rw [hs]; rfl)) hok
+
+/-- RemoteError from `_cbCvtReply` if AND ONLY IF a declared return signature differs. -/
+theorem reply_convention_remote_error_iff (m : Reply V) (hw : WellFormed m) (rs : RetSig) :
+    (∃ t, cvtReply (some m) rs = .remoteError t) ↔ ∃ d, declared rs = some d ∧ d ≠ sigOf m := by
+  obtain ⟨h1, h2, _⟩ := reply_convention m hw rs
+  constructor
+  · intro ⟨t, ht⟩
+    apply Classical.byContradiction
+    intro hno
+    rw [h2 hno] at ht
+    unfold convention at ht
+    split at ht
+    · cases ht
+    · split at ht <;> cases ht
+    · cases ht
+  · exact h1
+
+/-- The RemoteError built by `errorReceived` has the message and values the specification derives from the
+reply's arguments (first argument if it is a string, else empty; all arguments). -/
+theorem remote_error_fields_spec (asStr : V → Option (List Char)) (body : Option (List V)) :
+    remoteErrorFields asStr body = errorFields asStr body :=
+  remoteErrorFields_eq_spec asStr body
+
+/-! ## 6. The hypothesis: serials come from one strictly increasing counter -/
+
+/-- Whatever else is constructed in the process in between, the calls of one connection get pairwise
+distinct serials from `DBusMessage._nextSerial`. -/
+theorem serials_distinct (evs : List (Ev V R)) (counter : Nat) : DistinctSerials (assign counter evs) :=
+  assign_distinct evs counter
+
+/-- Hence, for operation sequences whose serials come from the counter, the statements above hold with
+no hypothesis left. -/
+theorem counter_run_properties (asStr : V → Option (List Char)) (evs : List (Ev V R)) (counter : Nat) :
+    (∀ i, (∃ op, (assign counter evs)[i]? = some op ∧ isCall op = true) →
+      firingsOf (callId (assign counter evs) i) (final asStr (assign counter evs)).log
+        = expectedFirings asStr (assign counter evs) i) ∧
+    (∀ k, (firingsOf k (final asStr (assign counter evs)).log).length ≤ 1) ∧
+    (final asStr (assign counter evs)).faults = [] :=
+  ⟨fun i hc => refinement asStr _ (serials_distinct evs counter) i hc,
+   fun k => no_double_completion asStr _ (serials_distinct evs counter) k,
+   no_faults asStr _ (serials_distinct evs counter)⟩
+
+/-! ## Examples: the hypotheses are satisfiable, and the hypothesis is needed -/
+
+section Examples
+
+def exAsStr : Nat → Option (List Char) := fun n => if n = 7 then some ['m'] else none
+
+/-- Two concurrent calls (serials 3 and 4, the first with a deadline), replies in the other order, a
+duplicate, an unsolicited error, the deadline passing after the reply, then a loss. -/
+def exOps : List (Op Nat Nat) :=
+  [ .call 3 true (some 5) .noCheck,
+    .call 4 true none (.str ['s']),
+    .err 9 ['e'] none,
+    .ret 4 ⟨some ['s'], some [7]⟩,
+    .ret 3 ⟨none, none⟩,
+    .ret 4 ⟨some ['i'], some [1]⟩,
+    .expire 0,
+    .call 5 true (some 2) .noCheck,
+    .lost 1 ]
+
+example : DistinctSerials exOps := by decide
+example : ∃ op, exOps[1]? = some op ∧ isCall op = true := ⟨_, rfl, rfl⟩
+example : expectedFirings exAsStr exOps 0 = [.callback (some ⟨none, none⟩)] := by decide
+example : expectedFirings exAsStr exOps 1 = [.callback (some ⟨some ['s'], some [7]⟩)] := by decide
+example : expectedFirings exAsStr exOps 7 = [.lost 1] := by decide
+example : firingsOf 1 (final exAsStr exOps).log = [.callback (some ⟨some ['s'], some [7]⟩)] := by decide
+example : WellFormed (⟨some ['s'], some [7]⟩ : Reply Nat) := ⟨by simp, 's', [], rfl⟩
+example : cvtReply (some (⟨some ['s'], some [7]⟩ : Reply Nat)) (.str ['s']) = .one 7 := by decide
+example : (assign 1 ([.call true none .noCheck, .otherMessage, .call true none .noCheck] : List (Ev Nat Nat)))
+    = [.call 1 true none .noCheck, .call 3 true none .noCheck] := by decide
+
+/-- Without distinct serials the property fails in the model (as in the code: the same
+`MethodCallMessage` object sent twice through `callRemoteMessage`): the second registration overwrites
+the first, whose deadline then removes the second call's entry - the second call never completes although
+its return arrives, and the return raises nothing but completes nothing. -/
+def reuseOps : List (Op Nat Nat) :=
+  [ .call 5 true (some 1) .noCheck, .call 5 true none .noCheck, .expire 0, .ret 5 ⟨none, none⟩ ]
+
+theorem serial_reuse_violates :
+    ¬ DistinctSerials reuseOps ∧
+    firingsOf 1 (final exAsStr reuseOps).log = [] ∧
+    expectedFirings exAsStr reuseOps 1 = [.callback (some ⟨none, none⟩)] := by decide
+
+end Examples
+
+end Txdbus.C08
+
+#print axioms Txdbus.C08.refinement
+#print axioms Txdbus.C08.exactly_once
+#print axioms Txdbus.C08.no_double_completion
+#print axioms Txdbus.C08.attribution
+#print axioms Txdbus.C08.unsolicited_completes_nothing
+#print axioms Txdbus.C08.first_wins
+#print axioms Txdbus.C08.pending_until_completed
+#print axioms Txdbus.C08.no_residue
+#print axioms Txdbus.C08.lost_leaves_nothing
+#print axioms Txdbus.C08.no_faults
+#print axioms Txdbus.C08.reply_convention
+#print axioms Txdbus.C08.reply_convention_remote_error_iff
+#print axioms Txdbus.C08.remote_error_fields_spec
+#print axioms Txdbus.C08.serials_distinct
+#print axioms Txdbus.C08.counter_run_properties
+#print axioms Txdbus.C08.serial_reuse_violates
